@@ -4,6 +4,7 @@
   every end-of-block step; the per-validator target is checked by the monitor on every observed rebalance.
 -/
 import AllianceProofs
+import Generated.Arith
 import Generated.Facts
 namespace Alliance
 namespace C10
@@ -147,6 +148,12 @@ theorem current_stake_is_the_share_value (ds D : Dec) (T : Int) (hds : 0 ≤ ds)
     carries its target to within one base unit below and a rounding above: inside the property's two base units -/
 theorem rebalance_amount_is_the_floor_of_the_gap (gap : Dec) (hg : 0 ≤ gap) :
     truncateInt gap * P ≤ gap ∧ gap < (truncateInt gap + 1) * P := truncateInt_bounds gap hg
+
+
+/-- fact (regenerated from x/alliance/abci.go on every run): the end blocker's body, statement by statement — no early return
+    before the rebalance (seeded changes C10-c / C10-j return early when no alliance is registered; the rebalance with an empty
+    asset list is what takes the minted stake off the validators) -/
+theorem end_blocker_body_as_modelled : Generated.endBlockStatements = ["defer telemetry.ModuleMeasureSince(types.ModuleName, ctx.BlockTime(), telemetry.MetricKeyEndBlocker)", "k.CompleteRedelegations(ctx)", "if err := k.CompleteUnbondings(ctx); err != nil {", "assets := k.GetAllAssets(ctx)", "if err := k.InitializeAllianceAssets(ctx, assets); err != nil {", "if _, err := k.DeductAssetsHook(ctx, assets); err != nil {", "if err := k.RewardWeightChangeHook(ctx, assets); err != nil {", "if err := k.RebalanceHook(ctx, assets); err != nil {", "return nil"] := rfl
 
 end C10
 end Alliance
